@@ -415,6 +415,29 @@ fn layout_case(out: &mut Out, toks: &[LTok], eof: LTok, origin: &str) -> LayoutE
     }
     out.count(&format!("layout:end:{}", endtxt.split(' ').next().unwrap().trim_matches('(')));
     out.count(&format!("layout:origin:{}", origin));
+    // statistics for `layout_blocks_covered` (not an oracle: the property does not speak of blocks)
+    {
+        let (mut o, mut c, mut early) = (0i64, 0i64, false);
+        for (k, _, _) in &v {
+            match k {
+                K::OpenBlock => o += 1,
+                K::CloseBlock => c += 1,
+                _ => {}
+            }
+            if c > o {
+                early = true;
+            }
+        }
+        if early {
+            out.count("layout:blocks:close-emitted-before-its-queued-open");
+        }
+        if matches!(end, LayoutEnd::Ok) {
+            out.count(if c <= o { "layout:blocks:final-closes<=opens" } else { "layout:blocks:final-closes>opens" });
+        }
+        if v.len() > 5 * toks.len().max(1) + 2 {
+            out.count("layout:output>5n+2");
+        }
+    }
     let inserted: BTreeSet<&str> = v
         .iter()
         .zip(0..)
